@@ -28,8 +28,12 @@ def warn_stub(rec):
 
 class VarSpec(object):
     def __init__(self, name, dims, masked=None, attrs=None, coord=False,
-                 kind='real', fill=-999.0):
+                 kind='real', fill=-999.0, declared=True):
         self.name = name
+        # declared=False: a masked variable that carries no fill_value /
+        # missing_value attribute (values attached directly, as several
+        # readers do)
+        self.declared = declared
         self.dims = tuple(dims)
         self.masked = masked    # None | tuple of flat indices that are masked
         self.attrs = dict(attrs or {})
@@ -104,12 +108,6 @@ def build(F, spec, vals, symbolic):
             tc = 'O'
         else:
             tc = 'd' if v.kind == 'real' else 'l'
-        kw = {}
-        if v.masked is not None:
-            kw['fill_value'] = v.fill
-        var = f.createVariable(v.name, tc, v.dims, **kw)
-        for k, a in v.attrs.items():
-            setattr(var, k, a)
         shp = spec.shape(v)
         n = int(np.prod(shp, dtype=int))
         flat = np.empty(n, dtype=object if symbolic else
@@ -117,12 +115,27 @@ def build(F, spec, vals, symbolic):
         for i in range(n):
             flat[i] = vals[(v.name, i)]
         arr = flat.reshape(shp)
+        m = None
         if v.masked is not None:
             m = np.zeros(n, dtype=bool)
             for i in v.masked:
                 if i < n:
                     m[i] = True
-            var[...] = np.ma.MaskedArray(arr, mask=m.reshape(shp))
+            m = m.reshape(shp)
+        if m is not None and not getattr(v, 'declared', True):
+            var = f.createVariable(v.name, tc, v.dims,
+                                   values=np.ma.MaskedArray(arr, mask=m))
+            for k, a in v.attrs.items():
+                setattr(var, k, a)
+            continue
+        kw = {}
+        if v.masked is not None:
+            kw['fill_value'] = v.fill
+        var = f.createVariable(v.name, tc, v.dims, **kw)
+        for k, a in v.attrs.items():
+            setattr(var, k, a)
+        if m is not None:
+            var[...] = np.ma.MaskedArray(arr, mask=m)
         else:
             var[...] = arr
     return f
